@@ -11,6 +11,9 @@ Ops (one session per `new`):
   `shared read <h>`              → `data` | `pending` | `err:closed` | `err:timeout`
   `shared write <h>`             → `ok` | `err:closed`
   `shared write <h>`             … also `err:timeout` (the underlying write failed under a write deadline)
+  `shared write <h> <c>`         write to connection c of the ufrag (kind tcpm<k>)
+  `shared refuse <c> on|off`     → `ok`   fault: connection c refuses SetWriteDeadline / SetDeadline (kind tcpm<k>)
+  `shared close <h>` / `abort <h>` … `err:other u=<…> rel=<…>` when the forwarded deadline call reported a refusing connection's error
   `shared writeap <h>`           the same through `WriteToAddrPort` when the handle has it (kind udpap); same model op
   `shared setrd <h> past|zero|future` → `ok` | `err:closed`      (SetReadDeadline)
   `shared setwd <h> [past|zero]` → `ok` | `err:closed`            (SetWriteDeadline; no argument = zero)
@@ -18,7 +21,8 @@ Ops (one session per `new`):
   `shared abort <h>`             → `ok u=<…> rel=<…>` | `err:closed u=<…> rel=0`
                                     (the candidateBase.abortIO sequence: SetDeadline(now), abortWrite, Close)
 The kind selects the model of the underlying connection: `udp` / `udpap` ignore a forwarded SetWriteDeadline
-(udpMuxedConn), `tcp` and `fake` honour it for every handle (tcpPacketConn; the harness's fake).
+(udpMuxedConn), `tcp`, `tcpm<k>` and `fake` honour it for every handle (tcpPacketConn over one net.Pipe / over k
+scripted connections; the harness's fake).
   `shared feed`                  → `ok` | `ok rel=h<k>` | `skip`
 The model output is `IceModel.SharedConn.step`; the monitor (`IceSpec.C13.sharedViolation`) is fed
 with the IMPLEMENTATION's outputs.
@@ -51,9 +55,13 @@ def obsOf (op : Op) (impl : String) : Option SObs :=
     | ["ok", u, r] => match parseKV "u=" u, parseKV "rel=" r with
       | some u, some r => some (.closed h u r)
       | _, _ => none
+    | ["err:other", u, r] => match parseKV "u=" u, parseKV "rel=" r with
+      | some u, some r => some (.closedErr h u r)
+      | _, _ => none
     | _ => none
-  | .read h => some (.io h .read (parseIO impl))
-  | .write h => some (.io h .write (parseIO impl))
+  | .read h => some (.io h .read 0 (parseIO impl))
+  | .write h c => some (.io h .write c (parseIO impl))
+  | .refuse c on => if impl = "ok" then some (.fault c on) else none
   | .setrd h p => some (.dl h true false p (parseIO impl))
   | .setwd h p => some (.dl h false true p (parseIO impl))
   | .setd h p => some (.dl h true true p (parseIO impl))
@@ -75,8 +83,10 @@ def parseOp (toks : List String) : Option Op :=
   | ["open"] => some .open
   | ["close", h] => h.toNat?.map Op.close
   | ["read", h] => h.toNat?.map Op.read
-  | ["write", h] => h.toNat?.map Op.write
-  | ["writeap", h] => h.toNat?.map Op.write
+  | ["write", h] => h.toNat?.map (fun h => Op.write h 0)
+  | ["write", h, c] => h.toNat?.bind (fun h => c.toNat?.map (fun c => Op.write h c))
+  | ["writeap", h] => h.toNat?.map (fun h => Op.write h 0)
+  | ["refuse", c, v] => c.toNat?.bind (fun c => if v = "on" then some (.refuse c true) else if v = "off" then some (.refuse c false) else none)
   | ["setrd", h, v] => h.toNat?.bind (fun h => if v = "past" then some (.setrd h true) else if v = "zero" || v = "future" then some (.setrd h false) else none)
   | ["setwd", h] => h.toNat?.map (fun h => Op.setwd h false)
   | ["setwd", h, v] => h.toNat?.bind (fun h => if v = "past" then some (.setwd h true) else if v = "zero" then some (.setwd h false) else none)
@@ -88,7 +98,11 @@ def parseOp (toks : List String) : Option Op :=
 -- @component shared
 def step (s : State) (toks : List String) (impl : String) : State × Res :=
   match toks with
-  | ["new", kind] => ({ model := IceModel.SharedConn.State.initK (kind = "tcp" || kind = "fake") }, { model := "ok", prop := "C13" })
+  | ["new", kind] =>
+    -- `tcpm<k>`: the TCP mux packet conn with k scripted net.Conns (k registers, refusal faults)
+    let k := if kind.startsWith "tcpm" then ((kind.drop 4).toString.toNat?).getD 0 else 0
+    ({ model := IceModel.SharedConn.State.initK (kind = "tcp" || kind = "fake" || kind.startsWith "tcpm") k, mon := SMon.initK k },
+     { model := "ok", prop := "C13" })
   | _ =>
     match parseOp toks with
     | none => (s, bad "shared: unknown op")
